@@ -35,8 +35,8 @@ CLAIMED["C03"] = dict(
     technique="CBMC function contracts (dfcc, enforce + replace) on extracted C, SAT back end, full 2^16 / 2^32 domains",
     ref="6/C03")
 CLAIMED["C07"] = dict(
-    text="Proof: for Vec2/3/4 normalizeExc/normalize/normalizeNonNull and normalizedExc/normalized/normalizedNonNull, and Matrix22/33/44 inverse/invert/gjInverse/gjInvert with and without the singExc flag, dfcc-enforced contracts give the frame, 'throws only with the flag / exactly for zero length', and the documented exception kind; relational lemma units call the checked and the real unchecked function on the same symbolic input and prove the results identical slot for slot whenever the checked form returns, and that it throws only where the plain form returns the identity (Vec all dims, Matrix22, Matrix33 inverse/invert); the same relational lemma plus the documented exception type for all ten Frustum ...Exc / setExc pairs and for Vec3(Vec4, InfException) vs Vec3(Vec4); thorough tier: for Vec3(Vec4, InfException) the guard fires only when the exact quotient is within a factor four of max, never for |w| >= 1 or quotient < max/2, and a returned value is finite (IEEE).",
-    note="Mode ABS for these units: + - * / and sqrt are uninterpreted functions (identical operation sequences are identical results for ANY arithmetic, in particular IEEE); comparisons are real. Trusted: clang AST + cxx2c, cbmc, cvc5, minisat. Not covered: relational clause for the Gauss-Jordan and 4x4 copies (solver memory), MatrixAlgo exc-flag functions, guard placement for the Frustum / checkForZeroScaleInRow guards.",
+    text="Proof: for Vec2/3/4 normalizeExc/normalize/normalizeNonNull and normalizedExc/normalized/normalizedNonNull, and Matrix22/33/44 inverse/invert/gjInverse/gjInvert with and without the singExc flag, dfcc-enforced contracts give the frame, 'throws only with the flag / exactly for zero length', and the documented exception kind; relational lemma units call the checked and the real unchecked function on the same symbolic input and prove the results identical slot for slot whenever the checked form returns, and that it throws only where the plain form returns the identity (Vec all dims, Matrix22, Matrix33 inverse/invert; Matrix44 inverse/invert modularly: gjInverse()/gjInverse(bool) enter through an assumed interface, the affine branch and the guard are the real code); the same relational lemma plus the documented exception type for all ten Frustum ...Exc / setExc pairs and for Vec3(Vec4, InfException) vs Vec3(Vec4); thorough tier: for Vec3(Vec4, InfException) the guard fires only when the exact quotient is within a factor four of max, never for |w| >= 1 or quotient < max/2, and a returned value is finite (IEEE).",
+    note="Mode ABS for these units: + - * / and sqrt are uninterpreted functions (identical operation sequences are identical results for ANY arithmetic, in particular IEEE); comparisons are real. Trusted: clang AST + cxx2c, cbmc, cvc5, minisat. Not covered: relational clause for the Gauss-Jordan copies themselves (solver memory; assumed in the modular 4x4 units), MatrixAlgo exc-flag functions, guard placement for the Frustum / checkForZeroScaleInRow guards.",
     technique="CBMC contracts (dfcc) for frame/exception clauses + relational lemma harnesses over the two real functions with uninterpreted arithmetic, cvc5/SAT",
     ref="6/C07")
 
@@ -59,13 +59,13 @@ CLAIMED["C17"] = dict(
     ref="6/C17")
 
 CLAIMED["C19"] = dict(
-    text="Proof for the clauses within reach: FixedArray<int> is extracted from PyImathFixedArray.h (system boost / CPython headers, library models for shared_array/any/PyErr) and contracts are enforced on canonical_index (Python index semantics, IndexError exactly outside [-len,len)), operator[] / direct_index (raise exactly for read-only arrays; element address through the mask; in bounds under the view invariant), makeReadOnly, match_dimension (invalid_argument exactly on mismatched lengths) and the four ReadOnly/Writable Direct/Masked access constructors that guard vectorised reads and writes; lemma over the contracts: nothing through which data could be written is handed out for a read-only array. This check found the missing 'throw' in WritableMaskedAccess, fixed in /repo (dceb7c3).",
-    note="Trusted: clang AST of the PyImath header with system boost/python3.11 headers, cxx2c and its library models (shared_array = bare pointer: ownership and lifetimes dropped), cbmc, cvc5. No differential run (the functions need boost.python to link; the accessor obligations have a native replay that links it). Element-address bounds are checked on 8-element buffers. Not covered: slices/setitem/ifelse/mask constructors, FixedArray2D/FixedMatrix/FixedVArray, StringTable, buffer protocol, lifetimes, Python level.",
+    text="Proof for the clauses within reach: FixedArray<int> is extracted from PyImathFixedArray.h (system boost / CPython headers, library models for shared_array/any/PyErr) and contracts are enforced on canonical_index (Python index semantics, IndexError exactly outside [-len,len)), operator[] / direct_index (raise exactly for read-only arrays; element address through the mask; in bounds under the view invariant), makeReadOnly, match_dimension (invalid_argument exactly on mismatched lengths) and the four ReadOnly/Writable Direct/Masked access constructors that guard vectorised reads and writes; lemma over the contracts: nothing through which data could be written is handed out for a read-only array. Bounded (arrays of at most 6 elements, labelled): getslice and setitem_scalar with a slice or integer index on plain and masked arrays select exactly the elements the same index selects on a Python list and raise exactly on a bad index / read-only array; CPython enters through an assumed interface (PySlice_Unpack arbitrary, PySlice_AdjustIndices = CPython's reference code). This check found the missing 'throw' in WritableMaskedAccess (dceb7c3) and the empty-backward-slice domain_error (997d46a), both fixed in /repo.",
+    note="Trusted: clang AST of the PyImath header with system boost/python3.11 headers, cxx2c and its library models (shared_array = bare pointer: ownership and lifetimes dropped), cbmc, cvc5. No differential run (the functions need boost.python to link; the accessor obligations have a native replay that links it). Element-address bounds are checked on 8-element buffers. Not covered: setitem_vector / masked setitem / ifelse / mask constructors, FixedArray2D/FixedMatrix/FixedVArray, StringTable, buffer protocol, lifetimes, Python level.",
     technique="CBMC function contracts (dfcc) on extracted C of PyImath headers with assumed library models, cvc5",
     ref="6/C19")
 
 CLAIMED["C20"] = dict(
-    text="Proof for the frame/partition clause of the generic kernels: VectorizedOperation2<Op, WritableDirectAccess, ReadOnlyDirectAccess, ReadOnlyDirectAccess>::execute(start,end) is extracted with Op::apply an uninterpreted pure function and its loop is closed by a loop contract (invariant with ghost index, assigns, decreases) for arrays of any length up to 10^6: result[k] == apply(arg1[k],arg2[k]) exactly for start <= k < end, every other result position and both arguments untouched, the loop terminates. match_lengths raises exactly for mismatched vector lengths. Bounded (length <= 8, labelled, not counted): the masked-argument and masked-result kernels through the accessors' index maps, and the partition lemma on the real kernel (two sub-ranges in either order == one call over the union).",
+    text="Proof for the frame/partition clause of the generic kernels: VectorizedOperation2<Op, WritableDirectAccess, ReadOnlyDirectAccess, ReadOnlyDirectAccess>::execute(start,end) is extracted with Op::apply an uninterpreted pure function and its loop is closed by a loop contract (invariant with ghost index, assigns, decreases) for arrays of any length up to 10^6: result[k] == apply(arg1[k],arg2[k]) exactly for start <= k < end, every other result position and both arguments untouched, the loop terminates. match_lengths raises exactly for mismatched vector lengths. Bounded (length <= 8, labelled, not counted): the masked-argument and masked-result kernels through the accessors' index maps, the in-place kernels VectorizedVoidOperation1 and VectorizedMaskedVoidOperation1 (a[mask] op= b with b of the unmasked length: b is indexed by the raw position), and the partition lemma on the real kernel (two sub-ranges in either order == one call over the union).",
     note="Trusted: clang AST of the PyImath headers, cxx2c + library models (as C19), cbmc loop-contract instrumentation, cvc5. The loop contract is inserted into the extracted C by the check (must-fire on the single for-loop). Concurrency is NOT modelled: disjoint write frames and read-only arguments are what is established; WorkerPool/dispatchTask, the export tables, the GIL macro and the hand-written Task structs are not covered.",
     technique="CBMC loop contracts + dfcc on extracted C of the PyImath kernel with an uninterpreted element operation; bounded unwinding stand-ins for masked kernels",
     ref="6/C20")
@@ -77,8 +77,8 @@ CLAIMED["C11"] = dict(
     ref="6/C11")
 
 CLAIMED["C06"] = dict(
-    text="Proof for the clauses within reach: (RING, T = unsigned) on unit-determinant families M = L*U the REAL inverse() satisfies M*inverse(M) == inverse(M)*M == I for 2x2, the 3x3 cofactor path, the 3x3 affine fast path and the 4x4 affine branch - a wrong cofactor index or sign breaks the identity; (IEEE) determinant() == 0 implies inverse() returns the identity for every finite 2x2; in-place invert()/invert(bool) leave exactly what the value forms return (relational lemma units shared with C07, Matrix22 and Matrix33).",
-    note="Trusted: clang AST + cxx2c, cbmc, z3-new som, cvc5. Not covered: every accuracy / conditioning clause (floating-point error analysis), Gauss-Jordan numerics and zero-pivot return, the 4x4 general path, det==0 => identity beyond 2x2 (solver time-out), continuity across the affine switch.",
+    text="Proof for the clauses within reach: (RING, T = unsigned) on unit-determinant families M = L*U the REAL inverse() satisfies M*inverse(M) == inverse(M)*M == I for 2x2, the 3x3 cofactor path, the 3x3 affine fast path and the 4x4 affine branch - a wrong cofactor index or sign breaks the identity; (IEEE) determinant() == 0 implies inverse() returns the identity for every finite 2x2; in-place invert()/invert(bool) leave exactly what the value forms return (relational lemma units shared with C07: Matrix22, Matrix33, and Matrix44 modularly in gjInverse); Matrix44::inverse() / inverse(false) is gjInverse() whenever the last column is not (0,0,0,1) (guard placement, modular).",
+    note="Trusted: clang AST + cxx2c, cbmc, z3-new som, cvc5. Not covered: every accuracy / conditioning clause (floating-point error analysis), Gauss-Jordan numerics and zero-pivot return (gjInverse enters the 4x4 units through an assumed interface), det==0 => identity beyond 2x2 (solver time-out), continuity across the affine switch.",
     technique="polynomial identities over Z/2^32 on the extracted unsigned instantiation (cbmc + z3 som) and relational / IEEE lemma harnesses (cvc5)",
     ref="6/C06, 10.3")
 CLAIMED["C14"] = dict(
